@@ -518,9 +518,26 @@ let run_history (l : n) (cap : n) (mode : string) (k : n) (line : string) : stri
       let probes = match parts with [_; p] -> List.map int_of_string (split_ws p) | _ -> [] in
       let is_val = (match opws with "val" :: _ -> true | _ -> false) in
       let opws = if is_val then ["ssize"; List.nth opws 1] else opws in
-      let o = parse_op3 opws in
+      (* audit words (harness/hx_heap.inc): observables the older words do not print.
+         decn    = cbor_decref(&p), then "N" if p was set to NULL (the item's cell is gone) else "K"
+         sallocn = cbor_serialize_alloc with buffer_size == NULL: the model's OSerAlloc (the bytes are printed up to the return value)
+         mkey / mvalue = _cbor_map_add_key / _cbor_map_add_value called on their own: HItems.map_add_key / map_add_value *)
+      let audit_decn = (match opws with ["decn"; h] -> hget (!st).base (nat_of_string h) | _ -> None) in
+      let audit_half = (match opws with
+        | [("mkey" | "mvalue") as wd; m; x] ->
+            Some (wd, hget (!st).base (nat_of_string m), hget (!st).base (nat_of_string x))
+        | _ -> None) in
+      let opws = (match opws with ["decn"; h] -> ["dec"; h] | ["sallocn"; h] -> ["salloc"; h] | _ -> opws) in
+      let o = (match audit_half with Some _ -> O3Preds O | None -> parse_op3 opws) in
       describe_mode := (match opws with "desc" :: _ -> true | _ -> false);
-      (match step3 refuse l !st o !w with
+      let stepped = (match audit_half with
+        | Some (_, None, _) | Some (_, _, None) -> Ret ((!st, Out OutSkip), !w)
+        | Some (wd, Some p, Some q) ->
+            (match (if wd = "mkey" then map_add_key refuse p q !w else map_add_value p q !w) with
+             | Fault kd -> Fault kd
+             | Ret (b, w') -> Ret ((!st, Out (OutBool b)), w'))
+        | None -> step3 refuse l !st o !w) in
+      (match stepped with
        | Fault kd -> faulted := true; Buffer.add_string b ("FAULT:" ^ fkind_s kd ^ ";")
        | Ret ((s', ot), w') ->
            st := s'; w := w';
@@ -552,6 +569,8 @@ let run_history (l : n) (cap : n) (mode : string) (k : n) (line : string) : stri
            end else
            Buffer.add_string b
              (match ot with
+              | Out OutUnit when audit_decn <> None ->
+                  (match audit_decn with Some a -> (match w'.heap a with None -> "N" | Some _ -> "K") | None -> "-")
               | OutVals vs -> "v:" ^ String.concat "," (List.map string_of_n vs)
               | Out oo ->
                   out_s oo (match o with
